@@ -85,6 +85,7 @@ let () =
         let tbl : (loc, z) Hashtbl.t ref = ref (Hashtbl.create 64) in
         let out = Buffer.create 256 in
         let stop = ref false in
+        let items_state : (nat * nat) list ref = ref [] in    (* colvars_smp / colvars_smp_items: survive between steps *)
         for t = 0 to nsteps - 1 do
           let nfs = ni () in
           for _ = 1 to nfs do
@@ -106,7 +107,8 @@ let () =
             let err = step_error !cfg tn in
             let vs' = prep_vars tn !cfg.c_vars in
             let avs = active_vars tn vs' in
-            let items = build_items avs in
+            let items = rebuild_items !items_state !cfg tn in
+            items_state := items;
             let ev = if mode = "unfixed" then List.concat_map (item_evaluates_unfixed vs') items
                      else if mode = "serial" then List.concat_map serial_evaluates avs
                      else List.concat_map (item_evaluates vs') items in
@@ -128,8 +130,13 @@ let () =
                          @ (if use_script && not after then ["s"] else []) in
             Buffer.add_string out (Printf.sprintf "t=%d err=%d ITEMS=%s BITEMS=%s EV=%s" t (if err then 1 else 0)
                                      (pairs items) (String.concat "," bitems) (pairs ev));
-            if err then stop := true
-            else begin
+            if err then begin
+              (* the error step: component/collection part under the two paths (serial returns at the failing variable) *)
+              let s2 = run loc_eqb (if mode = "serial" then serial_cvc_items_err !cfg tn else smp_cvc_items_err !cfg tn) s0 in
+              Buffer.add_string out " XERR=";
+              List.iteri (fun v _ -> Buffer.add_string out (Printf.sprintf "%d," (int_of_z (s2 (LX (nat_of_int v)))))) ncomp;
+              stop := true
+            end else begin
               Buffer.add_string out " CVC=";
               List.iteri (fun v nc -> for c = 0 to nc - 1 do
                              Buffer.add_string out (Printf.sprintf "%d:%d:%d:%d," v c
